@@ -490,26 +490,5 @@ func runC03R7(c *Ctx, r *Rep) {
 	for _, x := range extra {
 		r.bad("symtable|AnalyzeName|"+x, token.NoPos, "AnalyzeName has a decision path that analyze_name does not have: `%s` (a name is classified differently, or a forbidden declaration is no longer rejected, for some combination of flags and enclosing bindings)", x)
 	}
-	// AnalyzeCells
-	fd := c.FuncDecl("symtable", "AnalyzeCells")
-	if fd == nil {
-		r.undecided("symtable|AnalyzeCells", token.NoPos, "anchor not found")
-		return
-	}
-	r.analysed("symtable.AnalyzeCells")
-	txt := ""
-	ast.Inspect(fd.Body, func(n ast.Node) bool {
-		switch x := n.(type) {
-		case *ast.IfStmt:
-			txt += "if " + exprStr(x.Cond) + "; "
-		case *ast.AssignStmt:
-			txt += nodeText(x) + "; "
-		case *ast.ExprStmt:
-			txt += exprStr(x.X) + "; "
-		}
-		return true
-	})
-	want := "if scope != ScopeLocal; if !free.Contains(name); scopes[name] = ScopeCell; free.Discard(name); "
-	r.check(txt == want, "symtable|AnalyzeCells|local and free in a child -> cell", fd.Pos(), "Local ∧ name ∈ child-free ⇒ Cell, removed from free",
-		"AnalyzeCells no longer has the shape `Local and free in a child => Cell, discard from free` ("+txt+")")
+	// (AnalyzeCells is decided by its decision table, C03.R3)
 }
